@@ -88,7 +88,8 @@ def replay_entry(case, cfgnames):
     sbeppc = common.build_sbeppc("plain")
     edir = common.build_dir("replay-%d" % os.getpid())
     shutil.rmtree(edir, ignore_errors=True)
-    cfgs = [c for c in poolmod.CONFIGS if poolmod.cfg_name(c) in cfgnames] or [poolmod.CONFIGS[2]]
+    wanted = {n[:-3] if n.endswith("-nc") else n for n in cfgnames}
+    cfgs = [c for c in poolmod.CONFIGS if poolmod.cfg_name(c) in wanted] or [poolmod.CONFIGS[2]]
     st_ = poolmod.build_entry(case["model"], edir, cfgs, [], sbeppc)
     if not st_["ok"]:
         print("replay: schema no longer builds:", st_.get("signature"), st_.get("errors"))
